@@ -602,9 +602,7 @@ func (m *DisputeMonitor) onVote(c *Chain, ctx sdk.Context, x *disputetypes.MsgVo
 		rp[i] = rp[i].Add(v.ReporterPower)
 		// user weight: the voter's tips as of the dispute's block, read from the oracle module
 		if okd {
-			if u, err := c.App.OracleKeeper.GetTipsAtBlockForTipper(ctx, pd.BlockNumber, sdk.AccAddress(k.K2())); err == nil {
-				us[i] = us[i].Add(u)
-			}
+			us[i] = us[i].Add(ownTipsAtBlock(c, ctx, sdk.AccAddress(k.K2()), pd.BlockNumber))
 		}
 		return false, nil
 	})
@@ -630,14 +628,14 @@ func (m *DisputeMonitor) onVote(c *Chain, ctx sdk.Context, x *disputetypes.MsgVo
 	if err == nil && okd {
 		addr := sdk.MustAccAddressFromBech32(x.Voter)
 		bal := c.App.BankKeeper.GetBalance(ctx, addr, Denom).Amount
-		sel, err := c.App.ReporterKeeper.GetDelegatorTokensAtBlock(ctx, addr, pd.BlockNumber)
-		if err != nil {
-			sel = math.ZeroInt()
-		}
+		// stake and tips "as of the dispute's block": read from the snapshot collections directly (util.go)
+		sel, _, selAmbiguous := ownDelegatorTokensAt(c, ctx, addr, pd.BlockNumber)
 		isTeam := string(addr) == string(teamAddr)
-		tips, _ := c.App.OracleKeeper.GetTipsAtBlockForTipper(ctx, pd.BlockNumber, addr)
+		tips := ownTipsAtBlock(c, ctx, addr, pd.BlockNumber)
 		m.st.Bucket("c12|vote|team=%v|tips=%v|selector=%v|holder=%v|choice=%d", isTeam, tips.IsPositive(), sel.IsPositive(), bal.IsPositive(), int(x.Vote))
-		if !v.TokenholderPower.Equal(bal.Add(sel)) {
+		if selAmbiguous {
+			m.st.Count("c12.vote.skipped-two-snapshots-in-the-dispute-block")
+		} else if !v.TokenholderPower.Equal(bal.Add(sel)) {
 			c.Violate("C12", "dispute", "tokenholder-power-not-balance-plus-stake", map[string]interface{}{"id": x.Id, "recorded": v.TokenholderPower.String(), "balance": bal.String(), "stake_at_dispute_block": sel.String()})
 		}
 		wantUser := tips
@@ -672,9 +670,10 @@ func (m *DisputeMonitor) reporterStakeOnce(c *Chain, ctx sdk.Context, id, block 
 	}
 	own := m.selVoted[id][string(rep)]
 	if !rep.Equals(voter) {
-		t, err := c.App.ReporterKeeper.GetDelegatorTokensAtBlock(ctx, voter.Bytes(), block)
-		if err != nil {
-			t = math.ZeroInt()
+		t, _, amb := ownDelegatorTokensAt(c, ctx, voter.Bytes(), block)
+		if amb {
+			m.st.Count("c12.stake-once.skipped-two-snapshots-in-the-dispute-block")
+			return
 		}
 		own[string(voter)] = t
 		if !v.ReporterPower.Equal(t) {
@@ -687,9 +686,14 @@ func (m *DisputeMonitor) reporterStakeOnce(c *Chain, ctx sdk.Context, id, block 
 		m.st.Bucket("c12|stake-once|reporter-voted=false|selectors-voted=%d", minInt(len(own), 3))
 		return
 	}
-	total, err := c.App.ReporterKeeper.GetReporterTokensAtBlock(ctx, rep.Bytes(), block)
-	if err != nil {
+	rsnap, found, amb := ownSnapshotAt(c, ctx, rep.Bytes(), block)
+	if amb {
+		m.st.Count("c12.stake-once.skipped-two-snapshots-in-the-dispute-block")
 		return
+	}
+	total := math.ZeroInt()
+	if found && !rsnap.Total.IsNil() {
+		total = rsnap.Total
 	}
 	want := total
 	for _, t := range own {
